@@ -793,6 +793,15 @@ Definition bool_result_diag (v:value) : option (Z*Z) :=
 Definition restart_with (c:context) (vars:list (string*value)) : context :=
   upd_top (clear_values c) (fun f => set_vars f vars).
 
+(* Repair C05 exit-behaviour-no-value (context.h pop_value_or_nil, used by the exit behaviours of count / select / apply /
+   findIf / isNil / while / waitUntil in ops_generic.cpp and configClasses / configProperties in ops_config.cpp): a finished scope
+   yields exactly one value to the behaviour that ends it - the top of its part of the operand stack, nil when that part is empty
+   (the last statement left nothing and a separator or a restart had removed the placeholder).  Every `None` branch below therefore
+   does what the `Some (VNil, c)` branch does, on the unchanged stack.  Before the repair (switch `exit_value_missing`) the behaviour
+   logged the error-level CallstackFoundNoValue instead, which ended the script.  The behaviours that take no value (forEach, for,
+   switch, the body round of while) are untouched, in the code and here. *)
+Definition exit_value_missing (r:rt) : bool := defect r "exit_value_missing".
+
 Definition enact (b:behavior) (r:rt) (c:context) : res (bresult * behavior * rt * context) :=
   match b with
   | BCount arr idx cnt =>
@@ -801,7 +810,8 @@ Definition enact (b:behavior) (r:rt) (c:context) : res (bresult * behavior * rt 
         | Some (v, c') => match v with
                           | VBool t => (r, c', if t then (cnt + 1)%Z else cnt)
                           | _ => (match bool_result_diag v with Some d => logmsg r d | None => r end, c', cnt) end
-        | None => (logmsg r d_CallstackFoundNoValue, c, cnt) end in
+        | None => if exit_value_missing r then (logmsg r d_CallstackFoundNoValue, c, cnt)
+                  else (logmsg r d_TypeMissmatchWeak, c, cnt) end in
       if Nat.eqb (S idx) (length arr) then Ok (BrOk, BCount arr (S idx) cnt1, r1, push_value c1 (VNum cnt1))
       else Ok (BrSeekStart, BCount arr (S idx) cnt1, r1, restart_with c1 [("_x", nth_val arr (S idx))])
   | BSelect arr out idx =>
@@ -810,14 +820,16 @@ Definition enact (b:behavior) (r:rt) (c:context) : res (bresult * behavior * rt 
         | Some (v, c') => match v with
                           | VBool t => (r, c', if t then out ++ [nth_val arr idx] else out)
                           | _ => (match bool_result_diag v with Some d => logmsg r d | None => r end, c', out) end
-        | None => (logmsg r d_CallstackFoundNoValue, c, out) end in
+        | None => if exit_value_missing r then (logmsg r d_CallstackFoundNoValue, c, out)
+                  else (logmsg r d_TypeMissmatchWeak, c, out) end in
       if Nat.eqb (S idx) (length arr) then Ok (BrOk, BSelect arr out1 (S idx), r1, push_value c1 (VArr out1))
       else Ok (BrSeekStart, BSelect arr out1 (S idx), r1, restart_with c1 [("_x", nth_val arr (S idx))])
   | BApply arr out idx =>
       let '(r1, c1, out1) :=
         match pop_value c with
         | Some (v, c') => (r, c', out ++ [v])
-        | None => (logmsg r d_CallstackFoundNoValue, c, out) end in
+        | None => if exit_value_missing r then (logmsg r d_CallstackFoundNoValue, c, out)
+                  else (r, c, out ++ [VNil]) end in
       if Nat.eqb (S idx) (length arr) then Ok (BrOk, BApply arr out1 (S idx), r1, push_value c1 (VArr out1))
       else Ok (BrSeekStart, BApply arr out1 (S idx), r1, restart_with c1 [("_x", nth_val arr (S idx))])
   | BFindIf arr idx =>
@@ -826,7 +838,8 @@ Definition enact (b:behavior) (r:rt) (c:context) : res (bresult * behavior * rt 
         | Some (v, c') => match v with
                           | VBool t => (r, c', t)
                           | _ => (logmsg r d_TypeMissmatch, c', false) end
-        | None => (logmsg r d_CallstackFoundNoValue, c, false) end in
+        | None => if exit_value_missing r then (logmsg r d_CallstackFoundNoValue, c, false)
+                  else (logmsg r d_TypeMissmatch, c, false) end in
       if found then Ok (BrOk, b, r1, push_value c1 (VNum (Z.of_nat idx)))
       else if Nat.eqb (S idx) (length arr) then Ok (BrOk, BFindIf arr (S idx), r1, push_value c1 (VNum (-1)))
       else Ok (BrSeekStart, BFindIf arr (S idx), r1, restart_with c1 [("_x", nth_val arr (S idx))])
@@ -847,7 +860,8 @@ Definition enact (b:behavior) (r:rt) (c:context) : res (bresult * behavior * rt 
   | BIsNil =>
       match pop_value c with
       | Some (v, c') => Ok (BrOk, b, r, push_value c' (VBool (match v with VNil => true | _ => false end)))
-      | None => Ok (BrOk, b, logmsg r d_CallstackFoundNoValue, c) end
+      | None => if exit_value_missing r then Ok (BrOk, b, logmsg r d_CallstackFoundNoValue, c)
+                else Ok (BrOk, b, r, push_value c (VBool true)) end
   | BSwitch switched =>
       if switched then Ok (BrOk, b, r, c)
       else match c_frames c with
@@ -874,7 +888,8 @@ Definition enact (b:behavior) (r:rt) (c:context) : res (bresult * behavior * rt 
               | _ => Ok (BrExchange body, BWhile loops WCode cond body, r, c1) end
           | Some (VBool false, c') => Ok (BrOk, b, r, c')
           | Some (v, c') => Ok (BrOk, b, match bool_result_diag v with Some d => logmsg r d | None => r end, c')
-          | None => Ok (BrOk, b, logmsg r d_CallstackFoundNoValue, c) end
+          | None => if exit_value_missing r then Ok (BrOk, b, logmsg r d_CallstackFoundNoValue, c)
+                    else Ok (BrOk, b, logmsg r d_TypeMissmatchWeak, c) end
       | WCode =>
           let loops' := if c_can_suspend c then loops else S loops in
           if andb (negb (c_can_suspend c)) (andb (Nat.ltb 0 (r_max_loop r)) (Nat.leb (r_max_loop r) loops'))
@@ -887,10 +902,15 @@ Definition enact (b:behavior) (r:rt) (c:context) : res (bresult * behavior * rt 
       | popped =>
           let c0 := match popped with Some (_, c') => c' | None => c end in
           match popped with
-          | None => if andb (Nat.ltb waituntil_cap cnt') (c_can_suspend c) then Ok (BrOk, BWaitUntil cnt', logmsg r d_WaitUntilMaxLoopReached, c0)
-                    else let r1 := logmsg r d_CallstackFoundNoValue in
-                         let (t, r2) := now r1 in
-                         Ok (BrSeekStart, BWaitUntil cnt', r2, restart_with (set_suspended c0 true (t + 10000)%Z) [])
+          | None => if exit_value_missing r then
+                      if andb (Nat.ltb waituntil_cap cnt') (c_can_suspend c) then Ok (BrOk, BWaitUntil cnt', logmsg r d_WaitUntilMaxLoopReached, c0)
+                      else let r1 := logmsg r d_CallstackFoundNoValue in
+                           let (t, r2) := now r1 in
+                           Ok (BrSeekStart, BWaitUntil cnt', r2, restart_with (set_suspended c0 true (t + 10000)%Z) [])
+                    else (* nil is not a boolean: the cap of ops_generic.cpp:293 sits in the branch that is dead now *)
+                      let r1 := logmsg r d_TypeMissmatch in
+                      let (t, r2) := now r1 in
+                      Ok (BrSeekStart, BWaitUntil cnt', r2, restart_with (set_suspended c0 true (t + 10000)%Z) [])
           | Some _ => let r1 := logmsg r d_TypeMissmatch in
                       let (t, r2) := now r1 in
                       Ok (BrSeekStart, BWaitUntil cnt', r2, restart_with (set_suspended c0 true (t + 10000)%Z) []) end
